@@ -15,6 +15,10 @@ Open Scope N_scope.
 (* [None]: out of fuel, or an expression whose evaluation is undefined
    (eval_expr), or a statement outside the fragment; the boolean of a result
    says that a `break` is under way (the innermost enclosing loop ends it) *)
+(* OpStepRange's `stillGoing` *)
+Definition going (idx stp stop : float) : bool :=
+  (PrimFloat.ltb 0 stp && PrimFloat.ltb idx stop) || (PrimFloat.ltb stp 0 && PrimFloat.ltb stop idx).
+
 Fixpoint exec_s (fuel : nat) (s : stmt) (env : genv) {struct fuel} : option (genv * bool) :=
   match fuel with
   | O => None
@@ -25,6 +29,14 @@ Fixpoint exec_s (fuel : nat) (s : stmt) (env : genv) {struct fuel} : option (gen
       | SEmpty => Some (env, false)
       | SBreak => Some (env, true)
       | SIf c b elifs els => exec_c f (CCons c b elifs) els env
+      | SForStep None start stop step b =>
+          match eval_expr env stop, eval_expr env (match step with OSome e => e | ONoneE => ENum 1 end),
+                eval_expr env (match start with OSome e => e | ONoneE => ENum 0 end) with
+          | Some (VNum vstop), Some (VNum vstep), Some (VNum vstart) =>
+              if PrimFloat.eqb vstep 0 then None          (* ErrRangeValue *)
+              else exec_r f vstart vstep vstop b env
+          | _, _, _ => None
+          end
       | SWhile c b =>
           match eval_expr env c with
           | Some (VBool true) =>
@@ -53,6 +65,19 @@ with exec_l (fuel : nat) (l : slist) (env : genv) {struct fuel} : option (genv *
           end
       end
   end
+(* `for range start stop step` without loop variable, from index idx on *)
+with exec_r (fuel : nat) (idx stp stop : float) (b : slist) (env : genv) {struct fuel} : option (genv * bool) :=
+  match fuel with
+  | O => None
+  | S f =>
+      if going idx stp stop then
+        match exec_l f b env with
+        | Some (env1, false) => exec_r f (idx + stp)%float stp stop b env1
+        | Some (env1, true) => Some (env1, false)              (* break leaves the loop *)
+        | None => None
+        end
+      else Some (env, false)
+  end
 (* the condition chain of an if statement: the first true condition runs its block *)
 with exec_c (fuel : nat) (l : clist) (els : oslist) (env : genv) {struct fuel} : option (genv * bool) :=
   match fuel with
@@ -75,6 +100,12 @@ Fixpoint sdepth (s : stmt) : N :=
   | SDecl _ e | SAssign _ e => edepth e
   | SIf c b elifs els => N.max (edepth c) (N.max (ldepth b) (N.max (cdepth elifs) (match els with NoElse => 0 | Else eb => ldepth eb end)))
   | SWhile c b => N.max (edepth c) (ldepth b)
+  | SForStep _ start stop step b =>
+      (* the operands are evaluated on top of each other; the loop keeps 3 slots and pushes a flag *)
+      N.max (edepth stop)
+        (N.max (1 + edepth (match step with OSome e => e | ONoneE => ENum 1 end))
+           (N.max (2 + edepth (match start with OSome e => e | ONoneE => ENum 0 end))
+              (N.max 4 (3 + ldepth b))))
   | _ => 0
   end
 with ldepth (l : slist) : N :=
@@ -119,6 +150,14 @@ Inductive LAY : option N -> stmt -> cstate -> cstate -> list Z -> list N -> Prop
     jbytes Jump (N.of_nat (List.length (ccode st))) jb ->
     cconsts st' = cconsts stb -> csym st' = csym st ->
     LAY brk (SWhile c b) st st' [] (seg_c ++ jf ++ seg_b ++ jb)
+| lay_forstep brk start stop step b st s1 s2 s3 st' seg1 seg2 seg3 seg_r :
+    efrag stop = true -> compile_expr true stop st = COk s1 -> ccode s1 = ccode st ++ seg1 ->
+    efrag (match step with OSome e => e | ONoneE => ENum 1 end) = true ->
+    compile_expr true (match step with OSome e => e | ONoneE => ENum 1 end) s1 = COk s2 -> ccode s2 = ccode s1 ++ seg2 ->
+    efrag (match start with OSome e => e | ONoneE => ENum 0 end) = true ->
+    compile_expr true (match start with OSome e => e | ONoneE => ENum 0 end) s2 = COk s3 -> ccode s3 = ccode s2 ++ seg3 ->
+    LAYR b s3 st' 3 StepRange seg_r ->
+    LAY brk (SForStep None start stop step b) st st' [] (seg1 ++ seg2 ++ seg3 ++ seg_r)
 | lay_if brk c b elifs els st ste st' js bs seg :
     LAYC brk true (CCons c b elifs) els st ste (N.of_nat (List.length (ccode st)) + N.of_nat (List.length seg)) js bs seg ->
     cconsts st' = cconsts ste -> csym st' = csym st ->
@@ -154,12 +193,26 @@ with LAYC : option N -> bool -> clist -> oslist -> cstate -> cstate -> N -> list
     LAYC brk fin (CCons c b t) els st st' End
          (Z.of_nat (List.length (ccode st) + List.length (seg_c ++ jf ++ seg_b)) :: js)
          (bs_b ++ bs_r)
-         (seg_c ++ jf ++ seg_b ++ je ++ seg_r).
+         (seg_c ++ jf ++ seg_b ++ je ++ seg_r)
+
+(* the loop part of a range loop, entered with the S slots of its state on the
+   stack: range op (no loop variable); exit jump to the OpDrop; body (its
+   breaks go to the OpDrop too); jump back to the range op; OpDrop S *)
+with LAYR : slist -> cstate -> cstate -> N -> opc -> list N -> Prop :=
+| layr rop S b s3 stx stb st' bs_b seg_b jf jb :
+    cconsts stx = cconsts s3 -> same_resolve (csym stx) (csym s3) ->
+    N.of_nat (List.length (ccode stx)) = N.of_nat (List.length (ccode s3)) + 6 ->
+    LAYL (Some (N.of_nat (List.length (ccode s3)) + N.of_nat (List.length ([N_of_opc rop; 0; 0] ++ jf ++ seg_b ++ jb)))) b stx stb bs_b seg_b ->
+    jbytes JumpOnFalse (N.of_nat (List.length (ccode s3)) + N.of_nat (List.length ([N_of_opc rop; 0; 0] ++ jf ++ seg_b ++ jb))) jf ->
+    jbytes Jump (N.of_nat (List.length (ccode s3))) jb ->
+    cconsts st' = cconsts stb -> csym st' = csym s3 ->
+    LAYR b s3 st' S rop ([N_of_opc rop; 0; 0] ++ jf ++ seg_b ++ jb ++ [N_of_opc Drop; 0; S]).
 
 Scheme LAY_mind := Induction for LAY Sort Prop
   with LAYL_mind := Induction for LAYL Sort Prop
-  with LAYC_mind := Induction for LAYC Sort Prop.
-Combined Scheme LAY_mutind from LAY_mind, LAYL_mind, LAYC_mind.
+  with LAYC_mind := Induction for LAYC Sort Prop
+  with LAYR_mind := Induction for LAYR Sort Prop.
+Combined Scheme LAY_mutind from LAY_mind, LAYL_mind, LAYC_mind, LAYR_mind.
 
 (* ---------- machine steps for the two jumps ---------- *)
 Lemma step_jof p vs pre post jf T b rest :
@@ -187,6 +240,31 @@ Proof. exists 0%nat. reflexivity. Qed.
 
 Lemma reaches_step p s s' : vm_step p s = Running s' -> reaches p s s'.
 Proof. intro H. exists 1%nat. simpl. rewrite H. reflexivity. Qed.
+
+Lemma step_steprange p vs pre post idx stp stop base :
+  pcode p = pre ++ [N_of_opc StepRange; 0; 0] ++ post -> ip vs = N.of_nat (List.length pre) ->
+  ostack vs = VNum idx :: VNum stp :: VNum stop :: base -> PrimFloat.eqb stp 0 = false ->
+  N.of_nat (List.length (locals vs)) + N.of_nat (List.length base) + 4 <= StackSize ->
+  vm_step p vs = Running {| ip := ip vs + 3;
+                            ostack := VBool (going idx stp stop) :: VNum (idx + stp)%float :: VNum stp :: VNum stop :: base;
+                            locals := locals vs; globals := globals vs |}.
+Proof.
+  intros HC HI HS HZ HR. rewrite (fetch_arg p vs StepRange 0 0 pre post HC HI eq_refl).
+  unfold exec. rewrite HS. cbn [List.length Nat.ltb Nat.leb zero_step]. rewrite HZ.
+  change (0 * 256 + 0) with 0. cbn [step_range N.eqb negb andb]. rewrite andb_false_r. fold (going idx stp stop).
+  unfold with_stack. cbn [List.length].
+  destruct (StackSize <? N.of_nat (List.length (locals vs)) + N.of_nat (S (S (S (S (List.length base)))))) eqn:E; [apply N.ltb_lt in E; lia|].
+  reflexivity.
+Qed.
+
+Lemma step_drop3 p vs pre post a b c base :
+  pcode p = pre ++ [N_of_opc Drop; 0; 3] ++ post -> ip vs = N.of_nat (List.length pre) ->
+  ostack vs = a :: b :: c :: base ->
+  vm_step p vs = Running {| ip := ip vs + 3; ostack := base; locals := locals vs; globals := globals vs |}.
+Proof.
+  intros HC HI HS. rewrite (fetch_arg p vs Drop 0 3 pre post HC HI eq_refl).
+  unfold exec. change (0 * 256 + 3) with 3. cbn [simple_effect]. rewrite HS. reflexivity.
+Qed.
 
 (* ---------- what the simulation assumes about the machine state ---------- *)
 Definition slots_distinct (sym : symtab) : Prop :=
@@ -233,13 +311,15 @@ Lemma lay_frame :
   (forall brk s st st' bs seg, LAY brk s st st' bs seg -> (exists newc, cconsts st' = cconsts st ++ newc) /\ same_resolve (csym st') (csym st)) /\
   (forall brk l st st' bs seg, LAYL brk l st st' bs seg -> (exists newc, cconsts st' = cconsts st ++ newc) /\ same_resolve (csym st') (csym st)) /\
   (forall brk fin l els st st' End js bs seg, LAYC brk fin l els st st' End js bs seg ->
-     (exists newc, cconsts st' = cconsts st ++ newc) /\ same_resolve (csym st') (csym st)).
+     (exists newc, cconsts st' = cconsts st ++ newc) /\ same_resolve (csym st') (csym st)) /\
+  (forall b s3 st' S rop seg, LAYR b s3 st' S rop seg ->
+     (exists newc, cconsts st' = cconsts s3 ++ newc) /\ same_resolve (csym st') (csym s3)).
 Proof.
   apply LAY_mutind; intros;
     repeat match goal with
     | HF : efrag ?e = true, HC : compile_expr true ?e ?st = COk ?st1 |- _ =>
-        let nc := fresh "nc" in let K := fresh "K" in
-        destruct (efrag_consts e st st1 HF HC) as [(nc & K) _]; clear HC
+        let nc := fresh "nc" in let K := fresh "K" in let SE := fresh "SE" in
+        destruct (efrag_consts e st st1 HF HC) as [(nc & K) SE]; clear HC
     | H : (exists newc, _) /\ _ |- _ => let nb := fresh "nb" in let Kb := fresh "Kb" in let Sb := fresh "Sb" in destruct H as [(nb & Kb) Sb]
     end;
     (split; [first [exists []; rewrite app_nil_r; first [reflexivity|assumption] | chain_consts]
@@ -251,7 +331,8 @@ Lemma lay_len :
   (forall brk l st st' bs seg, LAYL brk l st st' bs seg ->
      N.of_nat (List.length (ccode st')) = N.of_nat (List.length (ccode st)) + N.of_nat (List.length seg)) /\
   (forall brk fin l els st st' End js bs seg, LAYC brk fin l els st st' End js bs seg ->
-     End = N.of_nat (List.length (ccode st)) + N.of_nat (List.length seg)).
+     End = N.of_nat (List.length (ccode st)) + N.of_nat (List.length seg)) /\
+  (forall b s3 st' S rop seg, LAYR b s3 st' S rop seg -> True).
 Proof.
   apply LAY_mutind; intros; auto.
   - simpl. lia.
@@ -269,35 +350,56 @@ Lemma layl_len : forall brk l st st' bs seg, LAYL brk l st st' bs seg ->
 Proof. apply lay_len. Qed.
 
 (* ---------- the simulation ---------- *)
-Definition mstate_ok (G : nat) (st : cstate) (env : genv) (vs : vmstate) : Prop :=
-  ostack vs = [] /\ locals vs = [] /\ globals_hold env (csym st) (globals vs) /\ slots_exist (csym st) (globals vs) /\
+(* base: what lies on the operand stack below the statement (the state of the
+   enclosing range loops) *)
+Definition mstate_ok (G : nat) (st : cstate) (env : genv) (base : list value) (vs : vmstate) : Prop :=
+  ostack vs = base /\ locals vs = [] /\ globals_hold env (csym st) (globals vs) /\ slots_exist (csym st) (globals vs) /\
   List.length (globals vs) = G.
 
 (* where the machine is after a statement: at the break target T if a break
    is under way, right after the code otherwise *)
 Definition SIMs (fuel : nat) (T : N) (s : stmt) (st st' : cstate) (seg : list N) : Prop :=
-  forall G env env' br, exec_s fuel s env = Some (env', br) -> forall p vs pre post,
+  forall G env env' br base, exec_s fuel s env = Some (env', br) -> forall p vs pre post,
     pcode p = pre ++ seg ++ post -> List.length pre = List.length (ccode st) -> consts_of p st' ->
-    ip vs = N.of_nat (List.length pre) -> mstate_ok G st env vs ->
-    sym_static (csym st) -> slots_distinct (csym st) -> sdepth s <= StackSize ->
-    exists vs', reaches p vs vs' /\ ip vs' = (if br then T else ip vs + N.of_nat (List.length seg)) /\ mstate_ok G st env' vs'.
+    ip vs = N.of_nat (List.length pre) -> mstate_ok G st env base vs ->
+    sym_static (csym st) -> slots_distinct (csym st) -> N.of_nat (List.length base) + sdepth s <= StackSize ->
+    exists vs', reaches p vs vs' /\ ip vs' = (if br then T else ip vs + N.of_nat (List.length seg)) /\ mstate_ok G st env' base vs'.
 
 Definition SIMl (fuel : nat) (T : N) (l : slist) (st st' : cstate) (seg : list N) : Prop :=
-  forall G env env' br, exec_l fuel l env = Some (env', br) -> forall p vs pre post,
+  forall G env env' br base, exec_l fuel l env = Some (env', br) -> forall p vs pre post,
     pcode p = pre ++ seg ++ post -> List.length pre = List.length (ccode st) -> consts_of p st' ->
-    ip vs = N.of_nat (List.length pre) -> mstate_ok G st env vs ->
-    sym_static (csym st) -> slots_distinct (csym st) -> ldepth l <= StackSize ->
-    exists vs', reaches p vs vs' /\ ip vs' = (if br then T else ip vs + N.of_nat (List.length seg)) /\ mstate_ok G st env' vs'.
+    ip vs = N.of_nat (List.length pre) -> mstate_ok G st env base vs ->
+    sym_static (csym st) -> slots_distinct (csym st) -> N.of_nat (List.length base) + ldepth l <= StackSize ->
+    exists vs', reaches p vs vs' /\ ip vs' = (if br then T else ip vs + N.of_nat (List.length seg)) /\ mstate_ok G st env' base vs'.
 
 Definition odepth (els : oslist) : N := match els with NoElse => 0 | Else eb => ldepth eb end.
 
 (* a chain ends at End, whichever block ran *)
 Definition SIMc (fuel : nat) (T : N) (l : clist) (els : oslist) (st st' : cstate) (End : N) (seg : list N) : Prop :=
-  forall G env env' br, exec_c fuel l els env = Some (env', br) -> forall p vs pre post,
+  forall G env env' br base, exec_c fuel l els env = Some (env', br) -> forall p vs pre post,
     pcode p = pre ++ seg ++ post -> List.length pre = List.length (ccode st) -> consts_of p st' ->
-    ip vs = N.of_nat (List.length pre) -> mstate_ok G st env vs ->
-    sym_static (csym st) -> slots_distinct (csym st) -> cdepth l <= StackSize -> odepth els <= StackSize ->
-    exists vs', reaches p vs vs' /\ ip vs' = (if br then T else End) /\ mstate_ok G st env' vs'.
+    ip vs = N.of_nat (List.length pre) -> mstate_ok G st env base vs ->
+    sym_static (csym st) -> slots_distinct (csym st) ->
+    N.of_nat (List.length base) + cdepth l <= StackSize -> N.of_nat (List.length base) + odepth els <= StackSize ->
+    exists vs', reaches p vs vs' /\ ip vs' = (if br then T else End) /\ mstate_ok G st env' base vs'.
+
+(* the loop part of a step range, entered with index / step / stop on the stack *)
+Definition SIMr (fuel : nat) (b : slist) (s3 st' : cstate) (seg : list N) : Prop :=
+  forall G env env' br idx stp stop base, exec_r fuel idx stp stop b env = Some (env', br) -> forall p vs pre post,
+    pcode p = pre ++ seg ++ post -> List.length pre = List.length (ccode s3) -> consts_of p st' ->
+    ip vs = N.of_nat (List.length pre) -> PrimFloat.eqb stp 0 = false ->
+    mstate_ok G s3 env (VNum idx :: VNum stp :: VNum stop :: base) vs ->
+    sym_static (csym s3) -> slots_distinct (csym s3) ->
+    N.of_nat (List.length base) + 4 <= StackSize -> N.of_nat (List.length base) + 3 + ldepth b <= StackSize ->
+    exists vs', reaches p vs vs' /\ ip vs' = ip vs + N.of_nat (List.length seg) /\ mstate_ok G s3 env' base vs'.
+
+Lemma exec_r_false : forall fuel idx stp stop b env env' br,
+  exec_r fuel idx stp stop b env = Some (env', br) -> br = false.
+Proof.
+  induction fuel as [|f IH]; intros idx stp stop b env env' br H; [discriminate|]. cbn [exec_r] in H.
+  destruct (going idx stp stop); [|inversion H; reflexivity].
+  destruct (exec_l f b env) as [[env1 [|]]|]; [inversion H; reflexivity|apply (IH _ _ _ _ _ _ _ H)|discriminate].
+Qed.
 
 Lemma store_global' env n v y sym (g : list value) :
   slots_distinct sym -> st_resolve n sym = Some y -> (N.to_nat (sidx y) < List.length g)%nat ->
@@ -312,22 +414,22 @@ Proof.
     pose proof (HD n m y ym HR HRm H) as ->. rewrite str_eqb_refl in E. discriminate.
 Qed.
 
-Lemma mstate_same G st st2 env vs : same_resolve (csym st2) (csym st) -> mstate_ok G st env vs -> mstate_ok G st2 env vs.
+Lemma mstate_same G st st2 env base vs : same_resolve (csym st2) (csym st) -> mstate_ok G st env base vs -> mstate_ok G st2 env base vs.
 Proof.
   intros HS (A & B & C & D & E). repeat split; auto; [eapply globals_hold_same; eauto|eapply slots_exist_same; eauto].
 Qed.
-Lemma mstate_same_back G st st2 env vs : same_resolve (csym st2) (csym st) -> mstate_ok G st2 env vs -> mstate_ok G st env vs.
+Lemma mstate_same_back G st st2 env base vs : same_resolve (csym st2) (csym st) -> mstate_ok G st2 env base vs -> mstate_ok G st env base vs.
 Proof.
-  intros HS H. apply (mstate_same G st2 st env vs); [intro n; rewrite HS; reflexivity|exact H].
+  intros HS H. apply (mstate_same G st2 st env base vs); [intro n; rewrite HS; reflexivity|exact H].
 Qed.
 
 (* an expression of the fragment evaluated by the machine, from an empty stack *)
-Lemma expr_runs G e st st1 seg_e env v p vs pre post :
+Lemma expr_runs G e st st1 seg_e env v base p vs pre post :
   efrag e = true -> compile_expr true e st = COk st1 -> ccode st1 = ccode st ++ seg_e ->
   eval_expr env e = Some v -> sym_static (csym st) ->
   pcode p = pre ++ seg_e ++ post -> consts_of p st1 -> ip vs = N.of_nat (List.length pre) ->
-  mstate_ok G st env vs -> edepth e <= StackSize ->
-  reaches p vs {| ip := ip vs + N.of_nat (List.length seg_e); ostack := [v]; locals := locals vs; globals := globals vs |}.
+  mstate_ok G st env base vs -> N.of_nat (List.length base) + edepth e <= StackSize ->
+  reaches p vs {| ip := ip vs + N.of_nat (List.length seg_e); ostack := v :: base; locals := locals vs; globals := globals vs |}.
 Proof.
   intros HF HC HSeg HE HS HP (more & HK) HI (M1 & M2 & M3 & M4 & M5) HD.
   destruct (compile_expr_correct e HF env st st1 v HC HE HS) as (_ & seg & newc & B & _ & D).
@@ -340,27 +442,28 @@ Qed.
 Theorem sim_all : forall fuel,
   (forall T s st st' bs seg, LAY (Some T) s st st' bs seg -> SIMs fuel T s st st' seg) /\
   (forall T l st st' bs seg, LAYL (Some T) l st st' bs seg -> SIMl fuel T l st st' seg) /\
-  (forall T l els st st' End js bs seg, LAYC (Some T) true l els st st' End js bs seg -> SIMc fuel T l els st st' End seg).
+  (forall T l els st st' End js bs seg, LAYC (Some T) true l els st st' End js bs seg -> SIMc fuel T l els st st' End seg) /\
+  (forall b s3 st' seg, LAYR b s3 st' 3 StepRange seg -> SIMr fuel b s3 st' seg).
 Proof.
-  induction fuel as [|f (IHs & IHl & IHc)].
-  - repeat split; intros; intros G env env' br HX; simpl in HX; discriminate.
-  - split; [|split].
-    + intros T s st st' bs seg HL. inversion HL; subst; intros G env env' br HX p vs pre post HP HLen HK HI HM HSS HSD HDp.
+  induction fuel as [|f (IHs & IHl & IHc & IHr)].
+  - repeat split; intros; intros G env env' br; intros; simpl in *; discriminate.
+  - split; [|split; [|split]].
+    + intros T s st st' bs seg HL. inversion HL; subst; intros G env env' br base HX p vs pre post HP HLen HK HI HM HSS HSD HDp.
       * (* assign *)
         cbn [exec_s] in HX. destruct (eval_expr env e) as [v|] eqn:HE; [|discriminate]. inversion HX; subst env' br.
         destruct (efrag_consts e st st1 H H0) as [(nc & K1) S1].
         assert (HK1 : consts_of p st1) by (destruct HK as (more & HK); exists more; rewrite HK, H5; reflexivity).
         cbn [sdepth] in HDp.
-        pose proof (expr_runs G e st st1 seg_e env v p vs pre (sg ++ post) H H0 H1 HE HSS
+        pose proof (expr_runs G e st st1 seg_e env v base p vs pre (sg ++ post) H H0 H1 HE HSS
                       ltac:(rewrite HP, <- !app_assoc; reflexivity) HK1 HI HM HDp) as R1.
-        set (vs1 := {| ip := ip vs + N.of_nat (List.length seg_e); ostack := [v]; locals := locals vs; globals := globals vs |}) in *.
+        set (vs1 := {| ip := ip vs + N.of_nat (List.length seg_e); ostack := v :: base; locals := locals vs; globals := globals vs |}) in *.
         destruct HM as (M1 & M2 & M3 & M4 & M5). destruct H4 as (hi & lo & -> & E4).
         pose proof (M4 n y H2) as HL4.
         eexists. split; [|split].
         -- eapply reaches_trans; [exact R1|]. apply reaches_step.
            rewrite (fetch_arg p vs1 SetGlobal hi lo (pre ++ seg_e) post);
              [|rewrite HP, <- !app_assoc; reflexivity|unfold vs1; simpl; rewrite HI, app_length; lia|reflexivity].
-           rewrite (exec_setglobal p vs1 _ _ v []); [reflexivity|reflexivity|unfold vs1; simpl; rewrite E4; exact HL4].
+           rewrite (exec_setglobal p vs1 _ _ v base); [reflexivity|reflexivity|unfold vs1; simpl; rewrite E4; exact HL4].
         -- simpl. rewrite app_length. simpl. lia.
         -- unfold mstate_ok. simpl. rewrite E4. repeat split; auto.
            ++ apply store_global'; auto.
@@ -384,17 +487,17 @@ Proof.
         destruct (eval_expr env c) as [[| [] | | | | |]|] eqn:HE; try discriminate.
         -- (* true: one more iteration *)
            destruct (exec_l f b env) as [[env1 brb]|] eqn:HXb; [|discriminate].
-           pose proof (expr_runs G c st st1 seg_c env (VBool true) p vs pre (jf ++ seg_b ++ jb ++ post) H H0 H1 HE HSS
+           pose proof (expr_runs G c st st1 seg_c env (VBool true) base p vs pre (jf ++ seg_b ++ jb ++ post) H H0 H1 HE HSS
                          ltac:(rewrite HP, <- !app_assoc; reflexivity) HK1 HI HM ltac:(lia)) as R1.
-           set (vs1 := {| ip := ip vs + N.of_nat (List.length seg_c); ostack := [VBool true]; locals := locals vs; globals := globals vs |}) in *.
-           pose proof (step_jof p vs1 (pre ++ seg_c) (seg_b ++ jb ++ post) jf _ true [] H6
+           set (vs1 := {| ip := ip vs + N.of_nat (List.length seg_c); ostack := VBool true :: base; locals := locals vs; globals := globals vs |}) in *.
+           pose proof (step_jof p vs1 (pre ++ seg_c) (seg_b ++ jb ++ post) jf _ true base H6
                          ltac:(rewrite HP, <- !app_assoc; reflexivity)
                          ltac:(unfold vs1; simpl; rewrite HI, app_length; lia) eq_refl) as R2.
-           set (vs2 := {| ip := ip vs1 + 3; ostack := []; locals := locals vs1; globals := globals vs1 |}) in *.
+           set (vs2 := {| ip := ip vs1 + 3; ostack := base; locals := locals vs1; globals := globals vs1 |}) in *.
            destruct HM as (M1 & M2 & M3 & M4 & M5).
-           assert (HM2 : mstate_ok G stx env vs2).
+           assert (HM2 : mstate_ok G stx env base vs2).
            { apply (mstate_same G st stx); [exact H3|]. unfold vs2, vs1; simpl. repeat split; auto. }
-           destruct (IHl _ b stx stb _ seg_b H5 G env env1 brb HXb p vs2 (pre ++ seg_c ++ jf) (jb ++ post)) as (vs3 & R3 & I3 & HM3).
+           destruct (IHl _ b stx stb _ seg_b H5 G env env1 brb base HXb p vs2 (pre ++ seg_c ++ jf) (jb ++ post)) as (vs3 & R3 & I3 & HM3).
            { rewrite HP, <- !app_assoc. reflexivity. }
            { rewrite !app_length, Ljf. apply Nat2N.inj. rewrite H4, H1, app_length, !Nat2N.inj_add, HLen. simpl. lia. }
            { exact HKb. }
@@ -414,9 +517,9 @@ Proof.
                          ltac:(rewrite HP, <- !app_assoc; reflexivity)
                          ltac:(rewrite I3; unfold vs2, vs1; simpl; rewrite HI, !app_length, Ljf; lia)) as R4.
               set (vs4 := {| ip := N.of_nat (List.length (ccode st)); ostack := ostack vs3; locals := locals vs3; globals := globals vs3 |}) in *.
-              assert (HM4 : mstate_ok G st env1 vs4).
+              assert (HM4 : mstate_ok G st env1 base vs4).
               { apply (mstate_same_back G st stx); [exact H3|]. destruct HM3 as (A3 & B3 & C3 & D3 & E3). unfold vs4; simpl. repeat split; auto. }
-              destruct (IHs _ _ _ _ _ _ HL G env1 env' br HX p vs4 pre post HP HLen HK) as (vs5 & R5 & I5 & HM5); auto.
+              destruct (IHs _ _ _ _ _ _ HL G env1 env' br base HX p vs4 pre post HP HLen HK) as (vs5 & R5 & I5 & HM5); auto.
               { unfold vs4; simpl. rewrite HLen. reflexivity. }
               exists vs5. split; [|split; [|exact HM5]].
               ** eapply reaches_trans; [exact R1|]. eapply reaches_trans; [apply reaches_step; exact R2|].
@@ -424,34 +527,85 @@ Proof.
               ** rewrite I5. unfold vs4; simpl. rewrite HI, HLen. reflexivity.
         -- (* false: leave the loop *)
            inversion HX; subst env' br.
-           pose proof (expr_runs G c st st1 seg_c env (VBool false) p vs pre (jf ++ seg_b ++ jb ++ post) H H0 H1 HE HSS
+           pose proof (expr_runs G c st st1 seg_c env (VBool false) base p vs pre (jf ++ seg_b ++ jb ++ post) H H0 H1 HE HSS
                          ltac:(rewrite HP, <- !app_assoc; reflexivity) HK1 HI HM ltac:(lia)) as R1.
-           set (vs1 := {| ip := ip vs + N.of_nat (List.length seg_c); ostack := [VBool false]; locals := locals vs; globals := globals vs |}) in *.
-           pose proof (step_jof p vs1 (pre ++ seg_c) (seg_b ++ jb ++ post) jf _ false [] H6
+           set (vs1 := {| ip := ip vs + N.of_nat (List.length seg_c); ostack := VBool false :: base; locals := locals vs; globals := globals vs |}) in *.
+           pose proof (step_jof p vs1 (pre ++ seg_c) (seg_b ++ jb ++ post) jf _ false base H6
                          ltac:(rewrite HP, <- !app_assoc; reflexivity)
                          ltac:(unfold vs1; simpl; rewrite HI, app_length; lia) eq_refl) as R2.
            eexists. split; [eapply reaches_trans; [exact R1|apply reaches_step; exact R2]|].
            destruct HM as (M1 & M2 & M3 & M4 & M5). split; [simpl; rewrite HI, HLen; reflexivity|].
            unfold mstate_ok, vs1; simpl. repeat split; auto.
+      * (* for range, step form: the operands, then the loop part *)
+        cbn [exec_s] in HX. cbn [sdepth] in HDp.
+        set (estep := match step with OSome e => e | ONoneE => ENum 1 end) in *.
+        set (estart := match start with OSome e => e | ONoneE => ENum 0 end) in *.
+        destruct (eval_expr env stop) as [[vstop| | | | | |]|] eqn:HE1; try discriminate.
+        destruct (eval_expr env estep) as [[vstep| | | | | |]|] eqn:HE2; try discriminate.
+        destruct (eval_expr env estart) as [[vstart| | | | | |]|] eqn:HE3; try discriminate.
+        destruct (PrimFloat.eqb vstep 0) eqn:HZ; [discriminate|].
+        pose proof (exec_r_false _ _ _ _ _ _ _ _ HX) as ->.
+        destruct (efrag_consts stop st s1 H H0) as [(n1 & K1) S1].
+        destruct (efrag_consts estep s1 s2 H2 H3) as [(n2 & K2) S2].
+        destruct (efrag_consts estart s2 s3 H5 H6) as [(n3 & K3) S3].
+        destruct (proj2 (proj2 (proj2 lay_frame)) _ _ _ _ _ _ H8) as [(nr & Kr) Sr].
+        assert (HK3 : consts_of p s3) by (apply (consts_of_prefix p s3 st' nr Kr HK)).
+        assert (HK2 : consts_of p s2) by (apply (consts_of_prefix p s2 s3 n3 K3 HK3)).
+        assert (HK1 : consts_of p s1) by (apply (consts_of_prefix p s1 s2 n2 K2 HK2)).
+        pose proof (expr_runs G stop st s1 seg1 env (VNum vstop) base p vs pre (seg2 ++ seg3 ++ seg_r ++ post) H H0 H1 HE1 HSS
+                      ltac:(rewrite HP, <- !app_assoc; reflexivity) HK1 HI HM ltac:(lia)) as R1.
+        set (vs1 := {| ip := ip vs + N.of_nat (List.length seg1); ostack := VNum vstop :: base; locals := locals vs; globals := globals vs |}) in *.
+        destruct HM as (M1 & M2 & M3 & M4 & M5).
+        assert (HM1 : mstate_ok G s1 env (VNum vstop :: base) vs1).
+        { unfold mstate_ok, vs1; simpl. rewrite S1. repeat split; auto. }
+        assert (HSS1 : sym_static (csym s1)) by (rewrite S1; exact HSS).
+        pose proof (expr_runs G estep s1 s2 seg2 env (VNum vstep) (VNum vstop :: base) p vs1 (pre ++ seg1) (seg3 ++ seg_r ++ post) H2 H3 H4 HE2 HSS1
+                      ltac:(rewrite HP, <- !app_assoc; reflexivity) HK2 ltac:(unfold vs1; simpl; rewrite HI, app_length; lia) HM1
+                      ltac:(cbn [List.length]; lia)) as R2.
+        set (vs2 := {| ip := ip vs1 + N.of_nat (List.length seg2); ostack := VNum vstep :: VNum vstop :: base; locals := locals vs1; globals := globals vs1 |}) in *.
+        assert (HM2 : mstate_ok G s2 env (VNum vstep :: VNum vstop :: base) vs2).
+        { unfold mstate_ok, vs2, vs1; simpl. rewrite S2, S1. repeat split; auto. }
+        assert (HSS2 : sym_static (csym s2)) by (rewrite S2, S1; exact HSS).
+        pose proof (expr_runs G estart s2 s3 seg3 env (VNum vstart) (VNum vstep :: VNum vstop :: base) p vs2 (pre ++ seg1 ++ seg2) (seg_r ++ post) H5 H6 H7 HE3 HSS2
+                      ltac:(rewrite HP, <- !app_assoc; reflexivity) HK3 ltac:(unfold vs2, vs1; simpl; rewrite HI, !app_length; lia) HM2
+                      ltac:(cbn [List.length]; lia)) as R3.
+        set (vs3 := {| ip := ip vs2 + N.of_nat (List.length seg3); ostack := VNum vstart :: VNum vstep :: VNum vstop :: base; locals := locals vs2; globals := globals vs2 |}) in *.
+        assert (HM3 : mstate_ok G s3 env (VNum vstart :: VNum vstep :: VNum vstop :: base) vs3).
+        { unfold mstate_ok, vs3, vs2, vs1; simpl. rewrite S3, S2, S1. repeat split; auto. }
+        destruct (IHr b s3 st' seg_r H8 G env env' false vstart vstep vstop base HX p vs3 (pre ++ seg1 ++ seg2 ++ seg3) post) as (vs4 & R4 & I4 & HM4).
+        { rewrite HP, <- !app_assoc. reflexivity. }
+        { rewrite !app_length, H7, H4, H1, !app_length, HLen. lia. }
+        { exact HK. }
+        { unfold vs3, vs2, vs1; simpl. rewrite HI, !app_length. lia. }
+        { exact HZ. }
+        { exact HM3. }
+        { rewrite S3, S2, S1; exact HSS. }
+        { rewrite S3, S2, S1; exact HSD. }
+        { lia. }
+        { lia. }
+        exists vs4. split; [|split].
+        -- eapply reaches_trans; [exact R1|]. eapply reaches_trans; [exact R2|]. eapply reaches_trans; [exact R3|exact R4].
+        -- rewrite I4. unfold vs3, vs2, vs1; simpl. rewrite !app_length. lia.
+        -- destruct HM4 as (A1 & A2 & A3 & A4 & A5). rewrite S3, S2, S1 in A3, A4. repeat split; auto.
       * (* if: the chain *)
         cbn [exec_s] in HX. cbn [sdepth] in HDp.
-        destruct (IHc _ _ _ _ _ _ _ _ _ H G env env' br HX p vs pre post HP HLen) as (vs' & R & I & HM'); auto.
+        destruct (IHc _ _ _ _ _ _ _ _ _ H G env env' br base HX p vs pre post HP HLen) as (vs' & R & I & HM'); auto.
         { destruct HK as (more & HK); exists more; rewrite HK, H0; reflexivity. }
         { cbn [cdepth]. lia. }
         { unfold odepth. lia. }
         exists vs'. split; [exact R|]. split; [rewrite I, HI, HLen; reflexivity|exact HM'].
-    + intros T l st st' bs seg HL. inversion HL; subst; intros G env env' br HX p vs pre post HP HLen HK HI HM HSS HSD HDp.
+    + intros T l st st' bs seg HL. inversion HL; subst; intros G env env' br base HX p vs pre post HP HLen HK HI HM HSS HSD HDp.
       * cbn [exec_l] in HX. inversion HX; subst. exists vs. split; [apply reaches_refl|]. split; [simpl; lia|exact HM].
       * cbn [exec_l] in HX. cbn [ldepth] in HDp.
         destruct (exec_s f s env) as [[env1 br1]|] eqn:HX1; [|discriminate].
         destruct (lay_frame) as (LFs & LFl & _). destruct (LFs _ _ _ _ _ _ H) as [(n1 & K1) S1]. destruct (LFl _ _ _ _ _ _ H1) as [(n2 & K2) S2].
         assert (HK1 : consts_of p st1) by (apply (consts_of_prefix p st1 st' n2 K2 HK)).
-        destruct (IHs _ s st st1 _ seg1 H G env env1 br1 HX1 p vs pre (seg2 ++ post)) as (vs1 & R1 & I1 & HM1); auto.
+        destruct (IHs _ s st st1 _ seg1 H G env env1 br1 base HX1 p vs pre (seg2 ++ post)) as (vs1 & R1 & I1 & HM1); auto.
         { rewrite HP, <- !app_assoc. reflexivity. }
         { lia. }
         destruct br1.
         -- inversion HX; subst env' br. exists vs1. split; [exact R1|]. split; [exact I1|exact HM1].
-        -- destruct (IHl _ t st1 st' _ seg2 H1 G env1 env' br HX p vs1 (pre ++ seg1) post) as (vs2 & R2 & I2 & HM2).
+        -- destruct (IHl _ t st1 st' _ seg2 H1 G env1 env' br base HX p vs1 (pre ++ seg1) post) as (vs2 & R2 & I2 & HM2).
            { rewrite HP, <- !app_assoc. reflexivity. }
            { rewrite app_length. apply Nat2N.inj. rewrite H0, Nat2N.inj_add, HLen. reflexivity. }
            { exact HK. }
@@ -462,17 +616,17 @@ Proof.
            { lia. }
            exists vs2. split; [eapply reaches_trans; eauto|]. split; [rewrite I2, I1, app_length; destruct br; [reflexivity|lia]|].
            apply (mstate_same_back G st st1); [exact S1|exact HM2].
-    + intros T l els st st' End js bs seg HL. inversion HL; subst; intros G env env' br HX p vs pre post HP HLen HK HI HM HSS HSD HDp HDo.
+    + intros T l els st st' End js bs seg HL. inversion HL; subst; intros G env env' br base HX p vs pre post HP HLen HK HI HM HSS HSD HDp HDo.
       * (* no more conditions, no else *)
         cbn [exec_c] in HX. inversion HX; subst. exists vs. split; [apply reaches_refl|]. split; [rewrite HI, HLen; reflexivity|exact HM].
       * (* the else block *)
         cbn [exec_c] in HX. unfold odepth in HDo.
-        match goal with HL0 : LAYL _ eb sty st' _ seg |- _ => destruct (IHl _ eb sty st' _ seg HL0 G env env' br HX p vs pre post HP) as (vs3 & R3 & I3 & HM3) end; auto; [congruence|apply (mstate_same G st sty); assumption|apply (sym_static_same (csym st)); assumption|apply (slots_distinct_same (csym st)); assumption|].
+        match goal with HL0 : LAYL _ eb sty st' _ seg |- _ => destruct (IHl _ eb sty st' _ seg HL0 G env env' br base HX p vs pre post HP) as (vs3 & R3 & I3 & HM3) end; auto; [congruence|apply (mstate_same G st sty); assumption|apply (sym_static_same (csym st)); assumption|apply (slots_distinct_same (csym st)); assumption|].
         exists vs3. split; [exact R3|]. split; [rewrite I3, HI, HLen; reflexivity|].
         apply (mstate_same_back G st sty); assumption.
       * (* a condition *)
         cbn [exec_c] in HX. cbn [cdepth] in HDp. cbn [jshape] in H7.
-        destruct (lay_frame) as (_ & LF & LFc). destruct (LF _ _ _ _ _ _ H5) as [(nb & Kb) Sb]. destruct (LFc _ _ _ _ _ _ _ _ _ _ H11) as [(nr & Kr) Sr].
+        destruct (lay_frame) as (_ & LF & LFc & _). destruct (LF _ _ _ _ _ _ H5) as [(nb & Kb) Sb]. destruct (LFc _ _ _ _ _ _ _ _ _ _ H11) as [(nr & Kr) Sr].
         destruct (efrag_consts c st st1 H H0) as [(nc & K1) S1].
         assert (HKb : consts_of p stb).
         { apply (consts_of_prefix p stb st' nr); [rewrite Kr, H8; reflexivity|exact HK]. }
@@ -481,17 +635,17 @@ Proof.
         pose proof (jbytes_len _ _ _ H6) as Ljf. pose proof (jbytes_len _ _ _ H7) as Lje.
         pose proof (layl_len _ _ _ _ _ _ H5) as LLb.
         destruct (eval_expr env c) as [[| [] | | | | |]|] eqn:HE; try discriminate.
-        -- pose proof (expr_runs G c st st1 seg_c env (VBool true) p vs pre (jf ++ seg_b ++ je ++ seg_r ++ post) H H0 H1 HE HSS
+        -- pose proof (expr_runs G c st st1 seg_c env (VBool true) base p vs pre (jf ++ seg_b ++ je ++ seg_r ++ post) H H0 H1 HE HSS
                          ltac:(rewrite HP, <- !app_assoc; reflexivity) HK1 HI HM ltac:(lia)) as R1.
-           set (vs1 := {| ip := ip vs + N.of_nat (List.length seg_c); ostack := [VBool true]; locals := locals vs; globals := globals vs |}) in *.
-           pose proof (step_jof p vs1 (pre ++ seg_c) (seg_b ++ je ++ seg_r ++ post) jf _ true [] H6
+           set (vs1 := {| ip := ip vs + N.of_nat (List.length seg_c); ostack := VBool true :: base; locals := locals vs; globals := globals vs |}) in *.
+           pose proof (step_jof p vs1 (pre ++ seg_c) (seg_b ++ je ++ seg_r ++ post) jf _ true base H6
                          ltac:(rewrite HP, <- !app_assoc; reflexivity)
                          ltac:(unfold vs1; simpl; rewrite HI, app_length; lia) eq_refl) as R2.
-           set (vs2 := {| ip := ip vs1 + 3; ostack := []; locals := locals vs1; globals := globals vs1 |}) in *.
+           set (vs2 := {| ip := ip vs1 + 3; ostack := base; locals := locals vs1; globals := globals vs1 |}) in *.
            destruct HM as (M1 & M2 & M3 & M4 & M5).
-           assert (HM2 : mstate_ok G stx env vs2).
+           assert (HM2 : mstate_ok G stx env base vs2).
            { apply (mstate_same G st stx); [exact H3|]. unfold vs2, vs1; simpl. repeat split; auto. }
-           destruct (IHl _ b stx stb _ seg_b H5 G env env' br HX p vs2 (pre ++ seg_c ++ jf) (je ++ seg_r ++ post)) as (vs3 & R3 & I3 & HM3).
+           destruct (IHl _ b stx stb _ seg_b H5 G env env' br base HX p vs2 (pre ++ seg_c ++ jf) (je ++ seg_r ++ post)) as (vs3 & R3 & I3 & HM3).
            { rewrite HP, <- !app_assoc. reflexivity. }
            { rewrite !app_length, Ljf. apply Nat2N.inj. rewrite H4, H1, app_length, !Nat2N.inj_add, HLen. simpl. lia. }
            { exact HKb. }
@@ -513,18 +667,18 @@ Proof.
                  eapply reaches_trans; [exact R3|apply reaches_step; exact R4].
               ** reflexivity.
               ** apply (mstate_same_back G st stx); [exact H3|]. destruct HM3 as (A3 & B3 & C3 & D3 & E3). simpl. repeat split; auto.
-        -- pose proof (expr_runs G c st st1 seg_c env (VBool false) p vs pre (jf ++ seg_b ++ je ++ seg_r ++ post) H H0 H1 HE HSS
+        -- pose proof (expr_runs G c st st1 seg_c env (VBool false) base p vs pre (jf ++ seg_b ++ je ++ seg_r ++ post) H H0 H1 HE HSS
                          ltac:(rewrite HP, <- !app_assoc; reflexivity) HK1 HI HM ltac:(lia)) as R1.
-           set (vs1 := {| ip := ip vs + N.of_nat (List.length seg_c); ostack := [VBool false]; locals := locals vs; globals := globals vs |}) in *.
-           pose proof (step_jof p vs1 (pre ++ seg_c) (seg_b ++ je ++ seg_r ++ post) jf _ false [] H6
+           set (vs1 := {| ip := ip vs + N.of_nat (List.length seg_c); ostack := VBool false :: base; locals := locals vs; globals := globals vs |}) in *.
+           pose proof (step_jof p vs1 (pre ++ seg_c) (seg_b ++ je ++ seg_r ++ post) jf _ false base H6
                          ltac:(rewrite HP, <- !app_assoc; reflexivity)
                          ltac:(unfold vs1; simpl; rewrite HI, app_length; lia) eq_refl) as R2.
            set (vs2 := {| ip := N.of_nat (List.length (ccode st)) + N.of_nat (List.length (seg_c ++ jf ++ seg_b ++ je));
-                          ostack := []; locals := locals vs1; globals := globals vs1 |}) in *.
+                          ostack := base; locals := locals vs1; globals := globals vs1 |}) in *.
            destruct HM as (M1 & M2 & M3 & M4 & M5).
-           assert (HM2 : mstate_ok G sty env vs2).
+           assert (HM2 : mstate_ok G sty env base vs2).
            { apply (mstate_same G st sty); [exact H9|]. unfold vs2, vs1; simpl. repeat split; auto. }
-           destruct (IHc _ t els sty st' End _ _ seg_r H11 G env env' br HX p vs2 (pre ++ seg_c ++ jf ++ seg_b ++ je) post) as (vs3 & R3 & I3 & HM3).
+           destruct (IHc _ t els sty st' End _ _ seg_r H11 G env env' br base HX p vs2 (pre ++ seg_c ++ jf ++ seg_b ++ je) post) as (vs3 & R3 & I3 & HM3).
            { rewrite HP, <- !app_assoc. reflexivity. }
            { assert (X : N.of_nat (List.length (ccode st1)) = N.of_nat (List.length (ccode st)) + N.of_nat (List.length seg_c)) by (rewrite H1, app_length; lia).
              apply Nat2N.inj. rewrite !app_length, Ljf, Lje. lia. }
@@ -539,6 +693,73 @@ Proof.
            ++ eapply reaches_trans; [exact R1|]. eapply reaches_trans; [apply reaches_step; exact R2|exact R3].
            ++ exact I3.
            ++ apply (mstate_same_back G st sty); [exact H9|exact HM3].
+    + intros b s3 st' seg HL. inversion HL; subst.
+      intros G env env' br idx stp stop base HX p vs pre post HP HLen HK HI HZ HM HSS HSD HD4 HDb.
+      cbn [exec_r] in HX.
+      set (sr := [N_of_opc StepRange; 0; 0]) in *. set (dr := [N_of_opc Drop; 0; 3]) in *.
+      set (Endp := N.of_nat (List.length (ccode s3)) + N.of_nat (List.length (sr ++ jf ++ seg_b ++ jb))) in *.
+      destruct (lay_frame) as (_ & LF & _). destruct (LF _ _ _ _ _ _ H2) as [(nb & Kb) Sb].
+      assert (HKb : consts_of p stb) by (destruct HK as (more & HK); exists more; rewrite HK, H5; reflexivity).
+      pose proof (jbytes_len _ _ _ H3) as Ljf. pose proof (jbytes_len _ _ _ H4) as Ljb.
+      destruct HM as (M1 & M2 & M3 & M4 & M5).
+      pose proof (step_steprange p vs pre (jf ++ seg_b ++ jb ++ dr ++ post) idx stp stop base
+                    ltac:(rewrite HP; unfold sr; rewrite <- !app_assoc; reflexivity) HI M1 HZ ltac:(rewrite M2; simpl; lia)) as R1.
+      set (vs1 := {| ip := ip vs + 3; ostack := VBool (going idx stp stop) :: VNum (idx + stp)%float :: VNum stp :: VNum stop :: base;
+                     locals := locals vs; globals := globals vs |}) in *.
+      set (base' := VNum (idx + stp)%float :: VNum stp :: VNum stop :: base) in *.
+      pose proof (step_jof p vs1 (pre ++ sr) (seg_b ++ jb ++ dr ++ post) jf _ (going idx stp stop) base' H3
+                    ltac:(rewrite HP, <- !app_assoc; reflexivity)
+                    ltac:(unfold vs1, sr; simpl; rewrite HI, app_length; simpl; lia) eq_refl) as R2.
+      (* the exit: OpDrop 3 *)
+      assert (EXIT : forall env2 vsd, ip vsd = Endp -> ostack vsd = base' -> locals vsd = [] ->
+                globals_hold env2 (csym s3) (globals vsd) -> slots_exist (csym s3) (globals vsd) -> List.length (globals vsd) = G ->
+                exists vs', reaches p vsd vs' /\ ip vs' = ip vs + N.of_nat (List.length (sr ++ jf ++ seg_b ++ jb ++ dr)) /\ mstate_ok G s3 env2 base vs').
+      { intros env2 vsd ID OD LD GD SD ND.
+        pose proof (step_drop3 p vsd (pre ++ sr ++ jf ++ seg_b ++ jb) post _ _ _ base
+                      ltac:(rewrite HP; unfold dr; rewrite <- !app_assoc; reflexivity)
+                      ltac:(rewrite ID; unfold Endp; rewrite !app_length, HLen, !Nat2N.inj_add; lia) OD) as RD.
+        eexists. split; [apply reaches_step; exact RD|]. split.
+        - simpl. rewrite ID, HI. unfold Endp, dr. rewrite !app_length, HLen. simpl. lia.
+        - unfold mstate_ok; simpl. repeat split; auto. }
+      destruct (going idx stp stop) eqn:HG.
+      * destruct (exec_l f b env) as [[env1 brb]|] eqn:HXb; [|discriminate].
+        set (vs2 := {| ip := ip vs1 + 3; ostack := base'; locals := locals vs1; globals := globals vs1 |}) in *.
+        assert (HM2 : mstate_ok G stx env base' vs2).
+        { apply (mstate_same G s3 stx); [exact H0|]. unfold vs2, vs1; simpl. repeat split; auto. }
+        destruct (IHl _ b stx stb _ seg_b H2 G env env1 brb base' HXb p vs2 (pre ++ sr ++ jf) (jb ++ dr ++ post)) as (vs3 & R3 & I3 & HM3).
+        { rewrite HP, <- !app_assoc. reflexivity. }
+        { rewrite !app_length, Ljf. apply Nat2N.inj. rewrite H1, !Nat2N.inj_add, HLen. unfold sr. simpl. lia. }
+        { exact HKb. }
+        { unfold vs2, vs1; cbn [ip]. rewrite HI, !app_length, Ljf. unfold sr. simpl. lia. }
+        { exact HM2. }
+        { apply (sym_static_same (csym s3)); assumption. }
+        { apply (slots_distinct_same (csym s3)); assumption. }
+        { unfold base'. cbn [List.length]. lia. }
+        pose proof (mstate_same_back G s3 stx env1 base' vs3 H0 HM3) as (B1 & B2 & B3 & B4 & B5).
+        destruct brb.
+        -- (* break: the machine is at the OpDrop *)
+           inversion HX; subst env' br.
+           destruct (EXIT env1 vs3 I3 B1 B2 B3 B4 B5) as (vs' & RE & IE & ME).
+           exists vs'. split; [|split; [exact IE|exact ME]].
+           eapply reaches_trans; [apply reaches_step; exact R1|]. eapply reaches_trans; [apply reaches_step; exact R2|].
+           eapply reaches_trans; [exact R3|exact RE].
+        -- pose proof (step_jump p vs3 (pre ++ sr ++ jf ++ seg_b) (dr ++ post) jb _ H4
+                         ltac:(rewrite HP, <- !app_assoc; reflexivity)
+                         ltac:(rewrite I3; unfold vs2, vs1; cbn [ip]; rewrite HI, !app_length, Ljf; unfold sr; simpl; lia)) as R4.
+           set (vs4 := {| ip := N.of_nat (List.length (ccode s3)); ostack := ostack vs3; locals := locals vs3; globals := globals vs3 |}) in *.
+           assert (HM4 : mstate_ok G s3 env1 base' vs4) by (unfold vs4, mstate_ok; simpl; repeat split; auto).
+           destruct (IHr b s3 st' _ HL G env1 env' br (idx + stp)%float stp stop base HX p vs4 pre post HP HLen HK) as (vs5 & R5 & I5 & HM5); auto.
+           { unfold vs4; simpl. rewrite HLen. reflexivity. }
+           exists vs5. split; [|split; [|exact HM5]].
+           ++ eapply reaches_trans; [apply reaches_step; exact R1|]. eapply reaches_trans; [apply reaches_step; exact R2|].
+              eapply reaches_trans; [exact R3|]. eapply reaches_trans; [apply reaches_step; exact R4|exact R5].
+           ++ rewrite I5. unfold vs4; simpl. rewrite HI, HLen. reflexivity.
+      * (* the range is exhausted *)
+        inversion HX; subst env' br.
+        set (vs2 := {| ip := Endp; ostack := base'; locals := locals vs1; globals := globals vs1 |}) in *.
+        destruct (EXIT env vs2 eq_refl eq_refl M2 M3 M4 M5) as (vs' & RE & IE & ME).
+        exists vs'. split; [|split; [exact IE|exact ME]].
+        eapply reaches_trans; [apply reaches_step; exact R1|]. eapply reaches_trans; [apply reaches_step; exact R2|exact RE].
 Qed.
 
 (* ====================================================================== *)
@@ -552,6 +773,7 @@ Fixpoint wfrag_stmt (s : stmt) : bool :=
   | SIf c b elifs els =>
       efrag c && wfrag_slist b && wfrag_clist elifs && match els with NoElse => true | Else eb => wfrag_slist eb end
   | SWhile c b => efrag c && wfrag_slist b
+  | SForStep None start stop step b => ofrag start && efrag stop && ofrag step && wfrag_slist b
   | _ => false
   end
 with wfrag_slist (l : slist) : bool :=
@@ -615,9 +837,10 @@ Lemma lay_brk_patch T :
   (forall brk l st st' bs seg, LAYL brk l st st' bs seg -> brk = None ->
      PATCHED T bs st seg (fun seg' => LAYL (Some (Z.to_N T)) l st st' bs seg')) /\
   (forall brk fin l els st st' End js bs seg, LAYC brk fin l els st st' End js bs seg -> brk = None ->
-     PATCHED T bs st seg (fun seg' => LAYC (Some (Z.to_N T)) fin l els st st' End js bs seg')).
+     PATCHED T bs st seg (fun seg' => LAYC (Some (Z.to_N T)) fin l els st st' End js bs seg')) /\
+  (forall b s3 st' S rop seg, LAYR b s3 st' S rop seg -> True).
 Proof.
-  apply LAY_mutind; intros; subst brk; intros x x' pre post HC HLen HP.
+  apply LAY_mutind; intros; try exact I; subst brk; intros x x' pre post HC HLen HP.
   - rewrite patch_all_nil in HP. inversion HP; subst x'. eexists. repeat split; eauto. eapply lay_assign; eauto.
   - rewrite patch_all_nil in HP. inversion HP; subst x'. eexists. repeat split; eauto. constructor.
   - cbn [bshape] in b. destruct b as (h0 & l0 & ->).
@@ -626,6 +849,7 @@ Proof.
     exists [N_of_opc Jump; hi; lo]. cbn [ccode cconsts csym cbreaks]. repeat split; auto.
     apply lay_break; auto. exists hi, lo. auto.
   - rewrite patch_all_nil in HP. inversion HP; subst x'. eexists. repeat split; eauto. eapply lay_while; eauto.
+  - rewrite patch_all_nil in HP. inversion HP; subst x'. eexists. repeat split; eauto. eapply lay_forstep; eauto.
   - destruct (H eq_refl x x' pre post HC HLen HP) as (seg' & C' & K' & S' & B' & L' & LY).
     exists seg'. repeat split; auto. eapply lay_if; eauto. rewrite L'. exact LY.
   - rewrite patch_all_nil in HP. inversion HP; subst x'. exists []. repeat split; auto. constructor.
@@ -769,6 +993,108 @@ Proof.
   - cbn [with_breaks ccode]. rewrite C5, C. unfold jf. rewrite <- !app_assoc. reflexivity.
   - cbn [with_breaks cbreaks]. rewrite app_nil_r. exact B1.
   - cbn [with_breaks csym]. rewrite S5, Sb. exact S1.
+Qed.
+
+(* the loop part of `for range …` without loop variable *)
+Lemma for_loop_none_body rop S b st : for_loop true None rop S b st =
+  (emit true rop [0%Z] st >>= fun st2 =>
+   emit true JumpOnFalse [JumpPlaceholderZ] st2 >>= fun st3 =>
+   body_of true b (with_sym (st_push (csym st3)) (with_breaks [] st3)) >>= fun st4 =>
+   emit true Jump [pos_of st] (with_sym (st_pop (csym st4)) st4) >>= fun st5 =>
+   emit true Drop [S] st5 >>= fun st6 =>
+   patch true (pos_of st2) (pos_of st5) st6 >>= patch_all true (cbreaks st6) (pos_of st5) >>= fun st7 =>
+   COk (with_breaks (cbreaks st3) st7)).
+Proof.
+  destruct b; cbn [for_loop for_declare for_assign bind body_of];
+    destruct (emit true rop [0%Z] st); cbn [bind]; try reflexivity;
+    destruct (emit true JumpOnFalse [JumpPlaceholderZ] c); cbn [bind]; reflexivity.
+Qed.
+
+Lemma layr_steprange_ok b s3 st' : slist_lay b ->
+  for_loop true None StepRange 3 b s3 = COk st' -> gsym (csym s3) -> has_gb (csym s3) ->
+  exists seg_r, LAYR b s3 st' 3 StepRange seg_r /\ ccode st' = ccode s3 ++ seg_r /\
+                cbreaks st' = cbreaks s3 /\ csym st' = csym s3.
+Proof.
+  intros HB HC HG HGB. rewrite for_loop_none_body in HC.
+  destruct (emit true StepRange [0%Z] s3) as [st2|] eqn:E1; [|discriminate]. cbn [bind] in HC.
+  destruct (emit true JumpOnFalse [JumpPlaceholderZ] st2) as [st3|] eqn:E2; [|discriminate]. cbn [bind] in HC.
+  destruct (body_of true b (with_sym (st_push (csym st3)) (with_breaks [] st3))) as [st4|] eqn:E3; [|discriminate]. cbn [bind] in HC.
+  destruct (emit true Jump [pos_of s3] (with_sym (st_pop (csym st4)) st4)) as [st5|] eqn:E4; [|discriminate]. cbn [bind] in HC.
+  destruct (emit true Drop [3%Z] st5) as [st6|] eqn:E5; [|discriminate]. cbn [bind] in HC.
+  destruct (patch true (pos_of st2) (pos_of st5) st6) as [st7|] eqn:E6; [|discriminate]. cbn [bind] in HC.
+  destruct (patch_all true (cbreaks st6) (pos_of st5) st7) as [st8|] eqn:E7; [|discriminate]. cbn [bind] in HC.
+  inversion HC; subst st'; clear HC.
+  apply emit_ok in E1. destruct E1 as (ins1 & HM1 & ->).
+  assert (X1 : make (N_of_opc StepRange) [0%Z] = Some [N_of_opc StepRange; 0; 0]) by (vm_compute; reflexivity).
+  assert (Y1 : ins1 = [N_of_opc StepRange; 0; 0]) by congruence. subst ins1. clear X1 HM1.
+  apply emit_hole_bytes in E2; [|reflexivity]. destruct E2 as (h0 & l0 & ->). cbn [ccode cconsts csym cbreaks] in *.
+  set (sr := [N_of_opc StepRange; 0; 0]) in *.
+  destruct (HB _ _ E3) as (bs_b & seg_b & L & Cb & Bb & Sb); cbn [with_sym with_breaks csym];
+    [apply gsym_push; exact HG|apply has_gb_push; exact HGB|].
+  cbn [with_sym with_breaks ccode cconsts csym cbreaks app] in Cb, Bb, Sb.
+  apply emit_jump_bytes in E4. destruct E4 as (jb & HJB & ->). cbn [with_sym ccode cconsts csym cbreaks] in *.
+  apply emit_ok in E5. destruct E5 as (ins5 & HM5 & ->).
+  assert (X5 : make (N_of_opc Drop) [3%Z] = Some [N_of_opc Drop; 0; 3]) by (vm_compute; reflexivity).
+  assert (Y5 : ins5 = [N_of_opc Drop; 0; 3]) by congruence. subst ins5. clear X5 HM5.
+  cbn [ccode cconsts csym cbreaks] in *.
+  set (dr := [N_of_opc Drop; 0; 3]) in *.
+  pose proof (jbytes_len _ _ _ HJB) as Ljb.
+  assert (C6 : (ccode st4 ++ jb) ++ dr = (ccode s3 ++ sr) ++ N_of_opc JumpOnFalse :: h0 :: l0 :: (seg_b ++ jb ++ dr)).
+  { rewrite Cb, <- !app_assoc. reflexivity. }
+  assert (EP : pos_of {| ccode := ccode s3 ++ sr; cconsts := cconsts s3; csym := csym s3; cbreaks := cbreaks s3 |} = Z.of_nat (List.length (ccode s3 ++ sr)))
+    by reflexivity.
+  rewrite EP in E6.
+  match type of E6 with patch _ _ ?T0 ?s0 = _ =>
+    destruct (patch_bytes (ccode s3 ++ sr) _ h0 l0 (seg_b ++ jb ++ dr) T0 s0 st7 C6 E6) as (HT & hi & lo & EH & ->) end.
+  cbn [ccode cconsts csym cbreaks] in E7 |- *. rewrite Bb in E7.
+  set (jf := [N_of_opc JumpOnFalse; hi; lo]).
+  assert (Cx : ccode {| ccode := (ccode s3 ++ sr) ++ [N_of_opc JumpOnFalse; h0; l0]; cconsts := cconsts s3; csym := st_push (csym s3); cbreaks := [] |}
+               = (ccode s3 ++ sr) ++ [N_of_opc JumpOnFalse; h0; l0]) by reflexivity.
+  match type of E7 with patch_all _ _ ?T0 ?x = _ =>
+    destruct (proj1 (proj2 (lay_brk_patch T0)) _ _ _ _ _ _ L eq_refl x st8 ((ccode s3 ++ sr) ++ jf) (jb ++ dr)) as (seg_b' & C8 & K8 & S8 & B8 & L8 & LY8);
+      [cbn [ccode]; unfold jf; rewrite <- !app_assoc; reflexivity
+      |cbn [with_sym with_breaks ccode]; unfold jf; rewrite !app_length; reflexivity
+      |exact E7|] end.
+  cbn [ccode cconsts csym cbreaks] in C8, K8, S8, B8.
+  assert (LEN : N.of_nat (List.length (ccode s3)) + N.of_nat (List.length (sr ++ jf ++ seg_b' ++ jb)) = hi * 256 + lo).
+  { rewrite EH. unfold pos_of. cbn [ccode]. rewrite Cb.
+    rewrite ?app_length; simpl List.length; rewrite ?app_length; simpl List.length; lia. }
+  match type of LY8 with LAYL (Some ?X) _ _ _ _ _ => replace X with (N.of_nat (List.length (ccode s3)) + N.of_nat (List.length (sr ++ jf ++ seg_b' ++ jb))) in LY8 by (rewrite LEN, EH; reflexivity) end.
+  exists (sr ++ jf ++ seg_b' ++ jb ++ dr).
+  split; [|split; [|split]].
+  - refine (layr StepRange 3 b s3 _ st4 _ bs_b seg_b' jf jb _ _ _ LY8 _ _ _ _).
+    + reflexivity.
+    + apply same_resolve_push.
+    + cbn [with_sym with_breaks ccode]. unfold sr. rewrite !app_length. simpl. lia.
+    + exists hi, lo. split; [reflexivity|]. symmetry. exact LEN.
+    + rewrite pos_pcof, N2Z.id in HJB. exact HJB.
+    + cbn [with_breaks cconsts]. exact K8.
+    + cbn [with_breaks csym]. rewrite S8, Sb. apply pop_push_id. exact HG.
+  - cbn [with_breaks ccode]. rewrite C8. unfold jf. rewrite <- !app_assoc. reflexivity.
+  - reflexivity.
+  - cbn [with_breaks csym]. rewrite S8, Sb. apply pop_push_id. exact HG.
+Qed.
+
+Lemma lay_forstep_ok start stop step b st st' :
+  ofrag start = true -> efrag stop = true -> ofrag step = true -> slist_lay b ->
+  compile_stmt true (SForStep None start stop step b) st = COk st' -> gsym (csym st) -> has_gb (csym st) ->
+  LAYOK (SForStep None start stop step b) st st'.
+Proof.
+  intros F1 F2 F3 HB HC HG HGB. cbn [compile_stmt] in HC.
+  pose proof (ofrag_expr step 1 F3) as F3'. pose proof (ofrag_expr start 0 F1) as F1'.
+  destruct (compile_expr true stop st) as [s1|] eqn:E1; [|discriminate]. cbn [bind] in HC.
+  destruct (compile_expr true (match step with OSome e => e | ONoneE => ENum 1 end) s1) as [s2|] eqn:E2; [|discriminate]. cbn [bind] in HC.
+  destruct (compile_expr true (match start with OSome e => e | ONoneE => ENum 0 end) s2) as [s3|] eqn:E3; [|discriminate]. cbn [bind] in HC.
+  destruct (efrag_sl _ F2 st s1 E1) as (S1 & o1 & c1 & C1 & K1 & _). pose proof (efrag_breaks _ F2 _ _ E1) as B1.
+  destruct (efrag_sl _ F3' s1 s2 E2) as (S2 & o2 & c2 & C2 & K2 & _). pose proof (efrag_breaks _ F3' _ _ E2) as B2.
+  destruct (efrag_sl _ F1' s2 s3 E3) as (S3 & o3 & c3 & C3 & K3 & _). pose proof (efrag_breaks _ F1' _ _ E3) as B3.
+  destruct (layr_steprange_ok b s3 st' HB HC) as (seg_r & LR & CR & BR & SR);
+    [rewrite S3, S2, S1; exact HG|rewrite S3, S2, S1; exact HGB|].
+  exists [], (encode o1 ++ encode o2 ++ encode o3 ++ seg_r). split; [|split; [|split]].
+  - eapply lay_forstep; eauto.
+  - rewrite CR, C3, C2, C1, <- !app_assoc. reflexivity.
+  - rewrite app_nil_r. congruence.
+  - congruence.
 Qed.
 
 (* one `cond / block` (compileConditionalBlock): a builder for the head of a
@@ -949,7 +1275,10 @@ Proof.
     apply (lay_if_ok c b elifs els st st' F1 (Hb F2) (Hc F3)); auto. destruct els; [exact I|apply Ho; exact F4].
   - intros c b Hb HF st st' HC HG HGB. cbn [wfrag_stmt] in HF. apply andb_true_iff in HF. destruct HF as [F1 F2].
     apply (lay_while_ok c b st st' F1 (Hb F2) HC HG HGB).
-  - intros lv a b c d _ HF. discriminate.
+  - intros lv start stop step b Hb HF st st' HC HG HGB. cbn [wfrag_stmt] in HF. destruct lv; [discriminate|].
+    apply andb_true_iff in HF. destruct HF as [HF F4]. apply andb_true_iff in HF. destruct HF as [HF F3].
+    apply andb_true_iff in HF. destruct HF as [F1 F2].
+    apply (lay_forstep_ok start stop step b st st' F1 F2 F3 (Hb F4) HC HG HGB).
   - intros lv t e b _ HF. discriminate.
   - intros _ st st' HC _ _. apply (lay_break_ok st st' HC).
   - intros _ st st' HC _ _. cbn [compile_stmt] in HC. inversion HC; subst.
@@ -989,9 +1318,10 @@ Lemma nb_no_breaks :
   (forall brk s st st' bs seg, LAY brk s st st' bs seg -> nb_stmt s = true -> bs = []) /\
   (forall brk l st st' bs seg, LAYL brk l st st' bs seg -> nb_slist l = true -> bs = []) /\
   (forall brk fin l els st st' End js bs seg, LAYC brk fin l els st st' End js bs seg ->
-     nb_clist l = true -> match els with NoElse => True | Else eb => nb_slist eb = true end -> bs = []).
+     nb_clist l = true -> match els with NoElse => True | Else eb => nb_slist eb = true end -> bs = []) /\
+  (forall b s3 st' S rop seg, LAYR b s3 st' S rop seg -> True).
 Proof.
-  apply LAY_mutind; intros; try reflexivity.
+  apply LAY_mutind; intros; try reflexivity; try exact I.
   - discriminate.
   - cbn [nb_stmt] in H0. apply andb_true_iff in H0. destruct H0 as [H0 F3]. apply andb_true_iff in H0. destruct H0 as [F1 F2].
     apply H; [cbn [nb_clist]; rewrite F1, F2; reflexivity|destruct els; [exact I|exact F3]].
@@ -1050,9 +1380,9 @@ Proof.
   split; [unfold top_ok; rewrite S; exact HT|]. split; [rewrite S; lia|].
   exists seg, newc. split; [exact C|]. split; [exact K|].
   intros p vs pre post HP HLen HK HI HO HL HIdx HGl HD.
-  assert (HM : mstate_ok (List.length (globals vs)) st env vs).
+  assert (HM : mstate_ok (List.length (globals vs)) st env [] vs).
   { repeat split; auto. intros m y HR. destruct (top_globals st HT m y HR) as [_ HI2]. rewrite S in HIdx. lia. }
-  destruct (proj1 (sim_all fuel) _ s st st' _ seg L _ env env1 false HX p vs pre post HP HLen HK HI HM HSS HSD HD) as (vs' & R & I & (A1 & A2 & A3 & A4 & A5)).
+  destruct (proj1 (sim_all fuel) _ s st st' _ seg L _ env env1 false [] HX p vs pre post HP HLen HK HI HM HSS HSD HD) as (vs' & R & I & (A1 & A2 & A3 & A4 & A5)).
   exists vs'. repeat split; auto. rewrite S. exact A3.
 Qed.
 
